@@ -654,7 +654,7 @@ MANIFEST = dict(
     technique='Coq proof over a machine-integer model (checked = debug, wrapping = release) of the position arithmetic, duration parsing, the iteration odometer and the regenerated LALR tables; '
               'model/code correspondence in both builds; totality run in guarded threads / child processes',
     text="PARTIAL. Proved for all inputs (coq/Props/C05.v, closed under the global context): sublist, substring, insert before, remove and the numeric filter never panic, give the same answer in "
-         "the debug and the release build and only use indexes inside the collection, for every length, position and count; years-and-months duration literals never overflow (any digit groups); "
+         "the debug and the release build and only use indexes inside the collection, for every length, position and count; years-and-months duration literals never overflow (any digit groups); the sum of two days-and-time durations (an unchecked i128 addition of nanoseconds) is exact in both builds unless the exact sum leaves i128, traps exactly there in the checked build and wraps in the other (C05_dtd_sum_exact_unless_known / _known_class / _traps_iff; witness C05_dtd_sum_total_refuted = the listed finding dtd-sum-beyond-i128); "
          "the for/some/every odometer terminates for every list of ranges (any isize bounds, either direction) and lists, makes exactly the product-many passes and visits every combination once; "
          "the LALR driver loop over the current lalr.rs tables never indexes a table out of bounds for any token sequence and any number of steps (single-step sweeps over all states x tokens and rules x states, lifted by induction over the run); "
          "the driver loop TERMINATES: on every sequence of n lexer tokens it ends with accept or a syntax error within 27(n+1)+3 turns and never finds its state stack shorter than the right-hand side it pops "
